@@ -24,7 +24,7 @@ from pbt.core import Collector, HarnessError, mksig
 ID = "C13"
 RULE = ("statement programs of every kind (select / insert / insert..select / upsert / update / delete / create / drop) x six classes; for each up to 12 random "
         "admissible call orders and up to 6 sub-lists; SQLite programs are prepared by the engine; plus the complete enumeration of set-operation clause calls (5 operators x operand tails x every ordered subset of orderby/limit/offset x six classes). Non-trivial = >= 3 distinct clauses and >= 2 admissible "
-        "orders that differ; distinct = distinct (program, order).")
+        "orders that differ; distinct = distinct (program, order). Select programs may carry a self-join whose second table object is mentioned in WHERE / HAVING (the automatic alias must show whatever the call order).")
 ASSUMPTIONS = [
     "admissible orders keep: calls to the same clause, into vs select, on_conflict < handler < where and any where vs on_conflict, update/delete vs select, "
     "as_select vs columns, from_ before joins, into before columns/insert/on_conflict, DML marker before returning, pagination setters among themselves, set-operation creation as a barrier",
